@@ -1,20 +1,30 @@
-from runner import CbmcUnit, Entry
-from props.C09 import OPAQUE
+from runner import PathUnit, PathEntry
 
-XOPAQUE = OPAQUE + [r"_Rb_tree", r"^_ZNSt3mapI", r"^_ZNSt6vectorIN8rkcommon3xml4NodeE", r"^_ZSt4cout", r"^_ZSt4endl", r"^_ZNSolsE", r"^_ZNSt8_Rb_tree", r"^_ZNSt12_Vector_baseIN8rkcommon3xml4NodeE",
-                    r"^_ZSt8_DestroyIPN8rkcommon3xml4NodeE", r"^_ZNSt12_Destroy_aux", r"^_ZN8rkcommon3xml4NodeC[12]E(RK|O)S1_", r"^_ZN8rkcommon3xml4NodeD[12]Ev", r"^_ZNSt20__uninitialized_copy", r"^_ZNKSt5ctype", r"^_ZSt16__throw_bad_castv"]
+LEVEL = "model_checking"
+# iostream / stringstream (error-message formatting, the 'still-open nodes' warning) live in libstdc++.so: opaque, results unused by the claims
+XOPAQUE = [r"basic_stringstream", r"basic_ostream", r"^_ZNSo", r"^_ZSt4endl", r"^_ZStlsI", r"^_ZNSt8ios_base", r"^_ZNSt9basic_ios", r"^_ZNSt6locale", r"basic_stringbuf", r"basic_streambuf", r"^_ZSt16__ostream_insert"]
 
 
 def units(tier):
     q = tier == "quick"
-    n = 3 if q else 5
-    uw = n + 8
-    return [CbmcUnit("xml", "harness/C16_xml.cpp", [
-        Entry("vp_main_parse_any", unwind=uw, timeout=1500 if q else 7000, desc="parseXML on every byte string of length %d (+NUL): returns or throws runtime_error; every cursor dereference inside the file's bytes; terminates within the bound" % n,
-              bounds="exactly %d symbolic bytes, recursion/loops unwound %d" % (n, uw)),
-        Entry("vp_main_parse_prop", unwind=uw + 6, timeout=1500 if q else 7000, desc="parseXML on '<a b=' + quote + every %d-byte tail: the quoted-string scanner stays inside the file's bytes" % n,
-              bounds="%d symbolic tail bytes" % n)],
-        defines=["NBYTES=%d" % n], heap_max=32, opaque=XOPAQUE, object_bits=9, mem_unwind=20, validate=False,
-        assumptions=["std::map / vector<Node> / Node copy and destruction / iostream members are opaque (havoc): the cursor is moved only by XML.cpp's own code", "byte strings of length %d; deeper nesting, readXML's file framing (fopen/ftell/fread) and faithfulness of the returned tree are outside the claim" % n,
-                     "allocation never fails"],
-        stubs=["libstdc++ string model; isalpha/isdigit/isspace ASCII contracts"])]
+    n = 5 if q else 7
+    W = 900 if q else 6000
+    P = lambda name, d, nb=None: PathEntry(name, desc=d, wall=W, max_steps=(40000000 if q else 1500000000), max_paths=(400000 if q else 4000000), bounds=("%d symbolic bytes (every value incl. NUL)" % nb) if nb else "")
+    tot = "returns a document or throws std::runtime_error; every cursor dereference inside the file's bytes (+ the NUL readXML appends); terminates"
+    ents = [P("vp_main_parse_any", "parseXML on every byte string of length %d: %s" % (n, tot), n),
+            P("vp_main_parse_prop", "'<a b=' + either quote + every %d-byte tail (quoted-string scanner): %s" % (n, tot), n),
+            P("vp_main_parse_open", "'<a>' + every %d-byte tail (content / child / close-tag scanning): %s" % (n, tot), n),
+            P("vp_main_parse_tag", "'<a ' + every %d-byte tail (property list): %s" % (n, tot), n),
+            P("vp_main_parse_comment", "'<!--' + every %d-byte tail (comment scanner): %s" % (n, tot), n),
+            P("vp_main_parse_header", "'<?xml' + every %d-byte tail (header): %s" % (n, tot), n),
+            P("vp_main_parse_close", "'<a>x</' + every %d-byte tail (close tag): %s" % (n, tot), n),
+            P("vp_main_faithful_layout", "generated documents: header (none / '<?xml?>' / with version), comments before and after, one node self-closing / empty / with content (1 or 2 words of any non-blank bytes), the same whitespace (none, ' ', newline+tab) at every allowed position: the tree read back has that name, property and trimmed content"),
+            P("vp_main_faithful_props", "generated nodes: every legal name of 1-2 characters, 0-2 properties (duplicate names, both quote styles, whitespace around '=', value = any byte that does not end it, or an escaped quote): same name and properties (last duplicate wins), fallback for absent ones"),
+            P("vp_main_faithful_tree", "generated documents: root with 0-2 children (self-closing / empty / content / grandchild with property), optional comments, whitespace between them: same children in the same order"),
+            P("vp_main_reject", "six malformed documents (mismatched close tag, truncated tag, property without value, bad name, two contents): std::runtime_error")]
+    return [PathUnit("xml", "harness/C16_xml.cpp", ents, defines=["NBYTES=%d" % n, "VP_PATH"], opaque=XOPAQUE,
+                     assumptions=["parseXML is driven directly on a buffer holding the file's bytes and the terminating NUL; readXML's file framing (fopen/fseek/ftell/fread) is outside the claim",
+                                  "byte strings of length <= %d behind each prefix; nesting depth therefore bounded by the length; longer inputs are outside the claim" % n,
+                                  "std::map / std::vector / std::string are the real libstdc++ header code; red-black-tree maintenance (libstdc++.so) is vp/models/support.cpp; allocation never fails",
+                                  "error-message text (stringstream) and the warning printed for still-open nodes are opaque"],
+                     stubs=["isalpha/isdigit/isspace by their C-locale ASCII definition", "iostream/stringstream: opaque"])]
